@@ -14,7 +14,7 @@ import re
 from collections.abc import AsyncIterator, Callable
 from contextlib import asynccontextmanager
 from datetime import date, datetime
-from email import message_from_string
+from email import message_from_bytes, message_from_string
 from email.message import EmailMessage
 from enum import Enum, StrEnum
 from typing import (
@@ -864,9 +864,19 @@ class IMAPClientCommand:
         # as a message structure right away (I hope this works in all cases,
         # even with draft messages.)
         #
-        self.message = message_from_string(
-            self._p_string(), policy=email.policy.SMTP
-        )
+        # What the client sent us are octets (we were handed them decoded as
+        # latin-1.) Parse them as octets: a message with 8-bit content parsed
+        # from a `str` can not be written to the folder.
+        #
+        msg_text = self._p_string()
+        try:
+            self.message = message_from_bytes(
+                msg_text.encode("latin-1"), policy=email.policy.SMTP
+            )
+        except UnicodeEncodeError:
+            self.message = message_from_string(
+                msg_text, policy=email.policy.SMTP
+            )
         # XXX Remove this after we are sure our MHMessage -> EmailMessage
         #     conversion.
         # self.message = mailbox.MHMessage(self._p_string())
